@@ -163,19 +163,43 @@ class Effects:
                         return True
             return False
 
+        def is_not_vguard(test):
+            """`<param> not in [virtual names]` / `not (<param> in [...])`: the complement of a virtual-name guard"""
+            if isinstance(test, ast.UnaryOp) and isinstance(test.op, ast.Not):
+                return is_vguard(test.operand) and not any(isinstance(c, ast.BoolOp) for c in ast.walk(test.operand))
+            if isinstance(test, ast.Compare) and isinstance(test.left, ast.Name) and test.left.id in params and len(test.ops) == 1 \
+                    and isinstance(test.ops[0], ast.NotIn):
+                r = test.comparators[0]
+                return isinstance(r, (ast.List, ast.Tuple)) and bool(r.elts) and all(isinstance(e, ast.Constant) and e.value in ('x', 'y', 'z', 't') for e in r.elts)
+            return False
+
+        def leaves(body):
+            return bool(body) and isinstance(body[-1], (ast.Return, ast.Raise, ast.Continue, ast.Break))
+
+        def block(stmts, guarded):
+            g = guarded
+            for st in stmts:
+                visit(st, g)
+                # after `if name not in [x, y, z, t]: ...; return` the rest of the block runs under a virtual name only
+                if isinstance(st, ast.If) and is_not_vguard(st.test) and leaves(st.body) and not st.orelse:
+                    g = True
+
         def visit(node, guarded):
             if guarded:
                 out.add(id(node))
             if isinstance(node, ast.If):
                 g = guarded or is_vguard(node.test)
-                for b in node.body:
-                    visit(b, g)
-                for b in node.orelse:
-                    visit(b, guarded)
+                block(node.body, g)
+                block(node.orelse, guarded or is_not_vguard(node.test))
                 visit(node.test, guarded)
                 return
+            for fld in ('body', 'orelse', 'finalbody'):
+                seq = getattr(node, fld, None)
+                if isinstance(seq, list) and seq and isinstance(seq[0], ast.stmt):
+                    block(seq, guarded)
             for c in ast.iter_child_nodes(node):
-                visit(c, guarded)
+                if not (isinstance(c, ast.stmt) and any(c in (getattr(node, fld, None) or []) for fld in ('body', 'orelse', 'finalbody') if isinstance(getattr(node, fld, None), list))):
+                    visit(c, guarded)
         visit(fi.node, False)
         return out
 
